@@ -315,6 +315,9 @@ struct Ctx12<'a> {
     e: &'a Entry,
     slots: Vec<Option<Box<dyn Reg>>>,
     model: Vec<u128>,
+    /// per slot and bit: the step that last wrote it according to the reference register
+    /// (usize::MAX = still the initial value); diagnostics only
+    prov: Vec<Vec<usize>>,
     st: RunStats,
 }
 
@@ -368,7 +371,13 @@ impl<'a> Ctx12<'a> {
                     widx,
                     got,
                     want,
-                    format!("raw_value() differs from the reference register; lowest differing bit {bit} ({inside})"),
+                    format!(
+                        "raw_value() differs from the reference register; lowest differing bit {bit} ({inside}); according to the register that bit {}",
+                        match self.prov[s].get(bit as usize) {
+                            Some(&usize::MAX) | None => "still has its initial value".to_string(),
+                            Some(&k) => format!("was last supplied by step {k}"),
+                        }
+                    ),
                 ));
             }
             for (j, fd) in self.l.fields.iter().enumerate() {
@@ -411,6 +420,7 @@ impl<'a> Ctx12<'a> {
                     return Ok(Some(format!("setup-anomaly: new_with_raw_value({:#x}).raw_value() = {:#x}", raw.0, r)));
                 }
                 self.model[*slot] = r;
+                self.prov[*slot] = vec![usize::MAX; 128];
                 self.slots[*slot] = Some(obj);
             }
             Op::InitSpecial { slot, which } => {
@@ -419,6 +429,7 @@ impl<'a> Ctx12<'a> {
                 }
                 let Some(obj) = (self.e.special)(*which) else { return Ok(Some("invalid".into())) };
                 self.model[*slot] = obj.raw();
+                self.prov[*slot] = vec![usize::MAX; 128];
                 self.slots[*slot] = Some(obj);
             }
             Op::Set { slot, f, i, v } => {
@@ -438,6 +449,11 @@ impl<'a> Ctx12<'a> {
                     self.st.probes[19] += 1;
                 }
                 self.model[*slot] = after;
+                for p in l.fields[*f].positions(*i) {
+                    if (p as usize) < 128 {
+                        self.prov[*slot][p as usize] = step;
+                    }
+                }
                 self.st.sets += 1;
                 *prev_write = Some((*f, *i));
             }
@@ -463,6 +479,14 @@ impl<'a> Ctx12<'a> {
                     self.st.probes[19] += 1;
                 }
                 self.model[*dst] = after;
+                if src != dst {
+                    self.prov[*dst] = self.prov[*src].clone();
+                }
+                for p in l.fields[*f].positions(*i) {
+                    if (p as usize) < 128 {
+                        self.prov[*dst][p as usize] = step;
+                    }
+                }
                 self.slots[*dst] = Some(new);
                 self.st.withs += 1;
                 if src != dst {
@@ -477,6 +501,7 @@ impl<'a> Ctx12<'a> {
                 }
                 let c = self.slots[*src].as_ref().unwrap().clone_box();
                 self.model[*dst] = self.model[*src];
+                self.prov[*dst] = self.prov[*src].clone();
                 self.slots[*dst] = Some(c);
                 self.st.copies += 1;
             }
@@ -516,7 +541,7 @@ impl<'a> Ctx12<'a> {
 
 /// Execute an operation list against the real type and the reference register.
 fn run_c12_ops(l: &Layout, e: &Entry, nslots: usize, ops: &[Op], digest_seed: u64) -> (Outcome, Option<u128>) {
-    let mut cx = Ctx12 { l, e, slots: (0..nslots).map(|_| None).collect(), model: vec![0; nslots], st: RunStats::default() };
+    let mut cx = Ctx12 { l, e, slots: (0..nslots).map(|_| None).collect(), model: vec![0; nslots], prov: vec![vec![usize::MAX; 128]; nslots], st: RunStats::default() };
     let mut d = 0xcbf2_9ce4_8422_2325u64 ^ digest_seed;
     fnv(&mut d, l.id as u64);
     let mut prev_write: Option<(usize, u32)> = None;
